@@ -10,6 +10,7 @@ For each candidate /tmp/wt/out/<PROP>/<mN>/{patch.diff,demo_test.go,demo_path.tx
 import json, os, subprocess, sys, shutil, concurrent.futures, re, time
 ENV=dict(os.environ, GOFLAGS='-mod=mod', GOPROXY='off', GOSUMDB='off', GOTOOLCHAIN='local'); ENV.pop('GOWORK',None)
 SRC=os.environ.get('SEED_SRC','/tmp/wt/out'); DST='/verif/seeded'
+LINT=os.environ.get('LINT','/verif/bin/ipfixlint')
 OLD=os.environ.get('OLD_LINT','')  # optional: analyser binary as committed before the seeds were seen
 FORCE_RACE={('C12','m1'),('C14','m2')}
 import glob
@@ -50,7 +51,7 @@ def one(prop, m):
         os.makedirs(f'/tmp/wt/ev_{prop}_{m}', exist_ok=True)
         shutil.copy('/verif/known_findings.json', f'/tmp/wt/ev_{prop}_{m}/known_findings.json')
         for q in PROPS:
-            rc,out=sh(f'/verif/bin/ipfixlint -prop {q} -tier quick -repo {wt} -verif /tmp/wt/ev_{prop}_{m}')
+            rc,out=sh(f'{LINT} -prop {q} -tier quick -repo {wt} -verif /tmp/wt/ev_{prop}_{m}')
             v=[l for l in out.splitlines() if l.startswith('VIOLATION')]
             if rc!=0 or v:
                 det[q]=[re.sub(r' replay=\S+','',l)[:400] for l in v[:4]] or [f'exit {rc}: '+out[-300:]]
